@@ -394,8 +394,10 @@ var AnalyzerBuiltinArity = &Analyzer{
 	Severity: SeverityError,
 	Doc:      "Check argument counts for calls to known builtin functions and special forms.\n\nELPS builtin functions have well-defined argument signatures. This check catches calls with too few or too many arguments before runtime. User-defined functions that shadow builtin names are automatically excluded, including names bound by let/let*/flet/labels/macrolet. Binding lists, formals lists and threading macro children are also excluded.",
 	Run: func(pass *Pass) error {
-		// Collect user-defined names so we don't flag shadowed builtins.
-		userDefs := UserDefined(pass.Exprs)
+		// Collect the names defun/defmacro define so we don't flag globally
+		// shadowed builtins.  Parameters shadow a builtin only inside their
+		// own function; aritySkipNodes marks those calls.
+		userDefs := definedFunctionNames(pass.Exprs)
 
 		// Collect AST nodes where arity checking should be skipped.
 		skipNodes := aritySkipNodes(pass.Exprs)
@@ -511,6 +513,41 @@ func markLocallyShadowedCalls(form *lisp.LVal, binds *lisp.LVal, funBinding bool
 	})
 }
 
+// definedFunctionNames returns the names the file defines with defun or
+// defmacro, at any depth.  A call whose head is one of them reaches the user's
+// definition (or may, for a definition made inside a function), so the builtin
+// of the same name is not checked for it.
+func definedFunctionNames(exprs []*lisp.LVal) map[string]bool {
+	defs := make(map[string]bool)
+	WalkSExprs(exprs, func(sexpr *lisp.LVal, depth int) {
+		switch HeadSymbol(sexpr) {
+		case "defun", "defmacro":
+			if ArgCount(sexpr) >= 1 && sexpr.Cells[1].Type == lisp.LSymbol {
+				defs[sexpr.Cells[1].Str] = true
+			}
+		}
+	})
+	return defs
+}
+
+// markParameterCalls marks every call inside fn (a defun, defmacro or lambda
+// form) whose head is one of fn's parameters: inside the function the name is
+// the argument, not the builtin.  Outside the function it is the builtin
+// again, so -- unlike a file-wide name set -- a parameter named get in one
+// function does not switch off the check of (get m) in the rest of the file.
+func markParameterCalls(fn *lisp.LVal, formals *lisp.LVal, skip map[*lisp.LVal]bool) {
+	params := make(map[string]bool)
+	CollectFormals(formals, params)
+	if len(params) == 0 {
+		return
+	}
+	WalkSExprs([]*lisp.LVal{fn}, func(sexpr *lisp.LVal, depth int) {
+		if head := HeadSymbol(sexpr); head != "" && params[head] {
+			skip[sexpr] = true
+		}
+	})
+}
+
 // aritySkipNodes returns a set of AST nodes that should be excluded from
 // arity checking. This covers three cases:
 //
@@ -531,11 +568,13 @@ func aritySkipNodes(exprs []*lisp.LVal) map[*lisp.LVal]bool {
 			// Formals at position 2: (defun name (formals...) body...)
 			if ArgCount(sexpr) >= 2 {
 				skip[sexpr.Cells[2]] = true
+				markParameterCalls(sexpr, sexpr.Cells[2], skip)
 			}
 		case "lambda":
 			// Formals at position 1: (lambda (formals...) body...)
 			if ArgCount(sexpr) >= 1 {
 				skip[sexpr.Cells[1]] = true
+				markParameterCalls(sexpr, sexpr.Cells[1], skip)
 			}
 		case "thread-first", "thread-last":
 			// Children at positions 2+ are forms that get an extra arg
